@@ -819,6 +819,18 @@ class Builder:
                 return []
             tg = self.pkg.scope[self.fn.module].get(nm)
             if tg and tg[0] == "func":
+                decs = [ast.unparse(d) for d in getattr(tg[1].node, "decorator_list", [])]
+                if any(d not in ("overload", "staticmethod") for d in decs):
+                    # a decorated function (lru_cache, a memoising wrapper, ...): what it returns may live in module-level
+                    # state and be handed out again by a later call
+                    self.all_args(node, False)
+                    self.uses_glob = True
+                    self.emit("globwrite", node)
+                    if not need:
+                        return []
+                    t = self.tmp(("globret",) + self.pos(node), f"%cached@{node.lineno}")
+                    self.emit("globret", t, node)
+                    return [t]
                 return self.pkgcall(node, [(tg[1], self.argmap(tg[1], node))], need, False)
             if tg and tg[0] == "class":
                 return self.construct(node, tg[1], need)
@@ -1107,6 +1119,8 @@ class Analysis:
             self.ins(("ret", st[1]), note)
         elif op == "globwrite":
             self.ins(("write", self.cv(GLOB)), note + " (module-level state)")
+        elif op == "globret":
+            self.ins(("alias", st[1], self.cv(GLOB)), note + " (result of a decorated / caching function)")
         elif op == "globdefault":
             if self.P(st[1]) & self.writes:
                 self.ins(("write", self.cv(GLOB)), note + " (mutable default argument written)")
